@@ -11,7 +11,7 @@ import gf2
 from common import PY, ROOT, driver_env, log
 from props.c08 import masks
 
-COST_CAP = {'quick': 4.0, 'thorough': 150.0}
+COST_CAP = {'quick': 8.0, 'thorough': 150.0}
 
 
 def leaves(n, d, css):
@@ -22,7 +22,9 @@ def leaves(n, d, css):
 
 def est(rec):
     css = rows_css(rec)
-    return 1.2e-6 * leaves(rec['n'], rec['d'], css) * (len(rec['H']) + 2 * rec['k']) * max(1.0, rec['n'] / 50.0) + 0.05
+    if css:   # incremental-syndrome search (DistanceFast.v)
+        return 4.5e-6 * leaves(rec['n'], rec['d'], True) * max(1.0, len(rec['H']) / 64.0) + 0.05
+    return 1.2e-6 * leaves(rec['n'], rec['d'], False) * (len(rec['H']) + 2 * rec['k']) * max(1.0, rec['n'] / 50.0) + 0.05
 
 
 def rows_css(rec):
@@ -99,11 +101,11 @@ def run(rep, work, tier, seed, only=None):
     def body_u(rec, uid):
         w = witness(rec)
         defs = codegen.code_def('c_' + uid, rec)
-        fn = 'distance_ok_css' if rows_css(rec) else 'distance_ok'
+        fn = 'distance_ok_css_fast' if rows_css(rec) else 'distance_ok'
         wl = codegen.bsf_lit(w) if w else 'bzero'
         return defs, [('dist_' + uid, '%s c_%s %d%%nat (%s)' % (fn, uid, rec['d'], wl))]
 
-    hdr = cc.HDR + 'From PQ Require Import Operator Deform Distance.\n'
+    hdr = cc.HDR + 'From PQ Require Import Operator Deform Distance DistanceFast.\n'
     groups = cc.batch(und, est, 5.0)
     log('[C17] %d undeformed instances in %d files (%d skipped as too costly)' % (len(und), len(groups), len(skipped)))
     for rec in und:
